@@ -18,7 +18,7 @@ const chain = "l1/l2/l3/l4/l5/l6/l7/l8/S"
 
 // hostProbes are locations on the real root that the alphabet's absolute names
 // would hit if an entry point ever used them verbatim.
-var hostProbes = []string{"/a", "/out2", "/out-evil", "/" + longSeg, "/aa"}
+var hostProbes = []string{"/a", "/out2", "/out-evil", "/out.bak", "/" + longSeg, "/aa"}
 
 type ent struct {
 	Path string `json:"p"`
@@ -172,7 +172,7 @@ func (sb *sandbox) rebuild() {
 	_ = os.Chdir("/")
 	makeRemovable(sb.R)
 	must(os.RemoveAll(sb.R))
-	for _, d := range []string{"out", "out2", "out-evil", "cwd", "tmp", "in", "tree", "outer/out"} {
+	for _, d := range []string{"out", "out2", "out-evil", "out.bak", "cwd", "tmp", "in", "tree", "outer/out"} {
 		must(os.MkdirAll(sb.dir(d), 0o755))
 	}
 	// decoys named like the temporary names the code uses
@@ -187,6 +187,7 @@ func (sb *sandbox) rebuild() {
 	put(sb.dir("tmp/osv-scalibr-image-scanning-decoy/layer-0/a"), "decoy layer file\n", 0o644)
 	put(sb.dir("out2/keep"), "decoy out2/keep\n", 0o644)
 	put(sb.dir("out-evil/keep"), "decoy out-evil/keep\n", 0o644)
+	put(sb.dir("out.bak/keep"), "decoy out.bak/keep\n", 0o644)
 	must(os.Setenv("TMPDIR", sb.dir("tmp")))
 	must(os.Chdir(sb.dir("cwd")))
 	sb.base = snapshot(sb.R)
@@ -241,7 +242,7 @@ func relS(rp string) (area, rest string) {
 	r := rp[len(chain)+1:]
 	first, tail, _ := strings.Cut(r, "/")
 	switch first {
-	case "out", "out2", "out-evil", "cwd", "tmp", "in", "tree", "outer":
+	case "out", "out2", "out-evil", "out.bak", "cwd", "tmp", "in", "tree", "outer":
 		return first, tail
 	}
 	return "S", r
@@ -315,10 +316,16 @@ func escapingLinks(root string) []string {
 		if looped {
 			return nil // never resolves anywhere: don't-care
 		}
-		if loc != root && !strings.HasPrefix(loc, root+"/") {
+		inside := func(l string) bool { return l == root || strings.HasPrefix(l, root+"/") }
+		if !inside(loc) {
 			t, _ := os.Readlink(p)
 			rel, _ := filepath.Rel(root, p)
 			out = append(out, fmt.Sprintf("%s -> %q resolves to %s", rel, t, loc))
+		} else if osLoc, err := filepath.EvalSymlinks(p); err == nil && !inside(osLoc) {
+			// the operating system's own resolution, as a second opinion for links that fully resolve
+			t, _ := os.Readlink(p)
+			rel, _ := filepath.Rel(root, p)
+			out = append(out, fmt.Sprintf("%s -> %q resolves (EvalSymlinks) to %s", rel, t, osLoc))
 		}
 		return nil
 	})
